@@ -422,6 +422,10 @@ def mk_cmp(op, a, b):
     if ca is not None and cb is not None and op in ('<', '<=', '>', '>=', '==', '!='):
         r = {'<': ca < cb, '<=': ca <= cb, '>': ca > cb, '>=': ca >= cb, '==': ca == cb, '!=': ca != cb}[op]
         return TRUE if r else FALSE
+    sa_, sb_ = a.single_atom(), b.single_atom()
+    if op in ('==', '!=') and sa_ is not None and sb_ is not None and sa_.kind == 'str' and sb_.kind == 'str':
+        r = sa_.args[0] == sb_.args[0]
+        return (TRUE if r else FALSE) if op == '==' else (FALSE if r else TRUE)
     if op in ('==', '!=') and a.key == b.key:
         return TRUE if op == '==' else FALSE
     if op in ('is', 'is not'):
@@ -620,6 +624,10 @@ def mk_call(fn, args=(), kwargs=()):
         if leading_sign(x) < 0:
             x = -x
         args = [x]
+    if EXACT_MODE[0] and fn in ('floor', 'ceil', 'trunc', 'int') and len(args) == 1 and _int_ratio(args[0]):
+        return args[0]
+    if EXACT_MODE[0] and fn == 'floordiv' and len(args) == 2 and _int_ratio(args[0] / args[1]):
+        return args[0] / args[1]
     if fn in ('round', 'floor', 'ceil', 'trunc', 'int') and len(args) >= 1:
         x = args[0]
         if len(args) == 1 or fn != 'round':
@@ -669,6 +677,21 @@ def mk_call(fn, args=(), kwargs=()):
     return Term.of(Atom('call', fn, tuple(args), kwargs))
 
 
+EXACT_MODE = [False]   # rules may assume constructor-asserted divisibility (C20): q//d == q/d
+
+
+def _int_ratio(t):
+    """single monomial whose atoms are all integer-valued (any exponents)"""
+    mono = t.monomial()
+    if mono is None:
+        return False
+    c, m = mono
+    for a, e in m:
+        if not is_integer(Term.of(a)):
+            return False
+    return True
+
+
 def _round_half_even(c):
     fl = math.floor(c)
     d = c - fl
@@ -698,7 +721,27 @@ def mk_sub(base, idx):
             for k, v in at.args:
                 if k.key == idx.key:
                     return v
+        if at.kind == 'ite':
+            return mk_ite(at.args[0], mk_sub(at.args[1], idx), mk_sub(at.args[2], idx))
     return Term.of(Atom('sub', base, idx))
+
+
+def mk_in(x, cont):
+    """x in cont, simplified through store chains / dict literals / conditionals."""
+    x, cont = lift(x), lift(cont)
+    at = cont.single_atom()
+    if at is not None:
+        if at.kind == 'store':
+            b, i, v = at.args
+            if i.key == x.key:
+                return TRUE
+            if _definitely_distinct(i, x):
+                return mk_in(x, b)
+        if at.kind == 'ite':
+            return mk_ite(at.args[0], mk_in(x, at.args[1]), mk_in(x, at.args[2]))
+        if at.kind == 'call' and at.args[0].startswith('mut.') and at.args[0] != 'mut.update':
+            pass
+    return mk_cmp('in', x, cont)
 
 
 def _definitely_distinct(i, j):
